@@ -1,60 +1,732 @@
 /-
   Helper lemmas for C13. Statements with a prime are the ones OrbProofs/C13.lean re-exports.
+  Core Lean only (no Mathlib).
 -/
 import Orb.Tile
 
 namespace Orb.Tile
 
+
+/-! ### basic no-overflow facts -/
+
+theorem tile_beq_iff (t u : Tile) : (t == u) = true ↔ t = u := by
+  cases t; cases u
+  simp [BEq.beq, instBEqTile.beq]
+
+theorem tile_ext {a b : Tile} (hx : a.x = b.x) (hy : a.y = b.y) (hz : a.z = b.z) : a = b := by
+  cases a; cases b; simp_all
+
+theorem two_pow_le_30 {z : Nat} (h : z ≤ 30) : 2 ^ z ≤ 2 ^ 30 :=
+  Nat.pow_le_pow_right (by decide) h
+
+theorem shl32_eq {a s : Nat} (h : a * 2 ^ s < 2 ^ 32) : shl32 a s = a * 2 ^ s := by
+  unfold shl32 W32
+  rw [Nat.shiftLeft_eq]
+  exact Nat.mod_eq_of_lt h
+
+theorem shr32_eq (a s : Nat) : shr32 a s = a / 2 ^ s := by
+  unfold shr32
+  exact Nat.shiftRight_eq_div_pow a s
+
+theorem sub32_eq {a b : Nat} (h : b ≤ a) (ha : a < 2 ^ 32) : sub32 a b = a - b := by
+  unfold sub32 W32
+  omega
+
+theorem add32_eq {a b : Nat} (h : a + b < 2 ^ 32) : add32 a b = a + b := by
+  unfold add32 W32
+  omega
+
+theorem shl32_one {x : Nat} (h : x < 2 ^ 31) : shl32 x 1 = 2 * x := by
+  rw [shl32_eq] <;> omega
+
+/-- `x < 2^(a+b) → x / 2^b < 2^a`. -/
+theorem div_lt_two_pow {x a b : Nat} (h : x < 2 ^ (a + b)) : x / 2 ^ b < 2 ^ a := by
+  rw [Nat.div_lt_iff_lt_mul (Nat.two_pow_pos b), ← Nat.pow_add]
+  exact h
+
+theorem mul_lt_two_pow {x a b : Nat} (h : x < 2 ^ a) : x * 2 ^ b < 2 ^ (a + b) := by
+  rw [Nat.pow_add]
+  exact Nat.mul_lt_mul_of_pos_right h (Nat.two_pow_pos b)
+
+theorem succ_mul_le_two_pow {x a b : Nat} (h : x < 2 ^ a) : (x + 1) * 2 ^ b ≤ 2 ^ (a + b) := by
+  rw [Nat.pow_add]
+  exact Nat.mul_le_mul_right _ h
+
 theorem valid_iff' (t : Tile) (hz : t.z ≤ 31) :
     valid t = true ↔ (t.x < 2^t.z ∧ t.y < 2^t.z) := by
-  sorry
+  have h : shl32 1 t.z = 2 ^ t.z := by
+    rw [shl32_eq] <;> rw [Nat.one_mul]
+    exact Nat.pow_lt_pow_right (by decide) (by omega)
+  simp [valid, h]
+
+theorem parent_eq (t : Tile) (h : 0 < t.z) (h' : t.z < 2 ^ 32) :
+    parent t = ⟨t.x / 2, t.y / 2, t.z - 1⟩ := by
+  unfold parent
+  rw [if_neg (by omega), shr32_eq, shr32_eq, sub32_eq (by omega) h']
+
+theorem V_parent (t : Tile) (ht : V t) (h : 0 < t.z) : V ⟨t.x / 2, t.y / 2, t.z - 1⟩ := by
+  obtain ⟨hx, hy, hz⟩ := ht
+  obtain ⟨n, hn⟩ : ∃ n, t.z = n + 1 := ⟨t.z - 1, by omega⟩
+  rw [hn] at hx hy
+  rw [Nat.pow_succ] at hx hy
+  refine ⟨?_, ?_, ?_⟩ <;> simp only [hn, Nat.add_sub_cancel] <;> omega
 
 theorem ancestorAt_eq_iterate_parent' (u : Tile) (hu : V u) (k : Nat) (hk : k ≤ u.z) :
     ancestorAt u k = parentN k u := by
-  sorry
+  induction k generalizing u with
+  | zero => cases u; simp [ancestorAt, parentN]
+  | succ k ih =>
+    have hz : u.z ≤ 30 := hu.2.2
+    have hp := parent_eq u (by omega) (by omega)
+    have hv := V_parent u hu (by omega)
+    rw [← hp] at hv
+    have := ih (parent u) hv (by rw [hp]; simp; omega)
+    rw [parentN, ← this, hp]
+    simp only [ancestorAt]
+    rw [Nat.div_div_eq_div_mul, Nat.div_div_eq_div_mul, Nat.pow_succ, Nat.mul_comm 2]
+    congr 1
+    omega
+
+theorem children_eq (t : Tile) (ht : V t) :
+    children t = [ ⟨2 * t.x, 2 * t.y, t.z + 1⟩, ⟨2 * t.x + 1, 2 * t.y, t.z + 1⟩,
+      ⟨2 * t.x + 1, 2 * t.y + 1, t.z + 1⟩, ⟨2 * t.x, 2 * t.y + 1, t.z + 1⟩ ] := by
+  obtain ⟨hx, hy, hz⟩ := ht
+  have := two_pow_le_30 hz
+  unfold children
+  rw [shl32_one (by omega), shl32_one (by omega), add32_eq (by omega), add32_eq (by omega),
+    add32_eq (by omega)]
 
 theorem children_valid_parent' (t : Tile) (ht : V t) (hz : t.z < 30) :
     ∀ c ∈ children t, V c ∧ c.z = t.z + 1 ∧ parent c = t := by
-  sorry
+  rw [children_eq t ht]
+  cases t with
+  | mk x y z =>
+  obtain ⟨hx, hy, _⟩ := ht
+  simp only at hx hy hz
+  have hp : (2:Nat) ^ (z + 1) = 2 ^ z * 2 := Nat.pow_succ _ _
+  intro c hc
+  simp only [List.mem_cons, List.not_mem_nil, or_false] at hc
+  rcases hc with rfl | rfl | rfl | rfl <;>
+  · refine ⟨⟨?_, ?_, ?_⟩, rfl, ?_⟩
+    · simp only; omega
+    · simp only; omega
+    · simp only; omega
+    · rw [parent_eq _ (by simp) (by simp only; omega)]
+      simp only [Nat.add_sub_cancel, Tile.mk.injEq, and_true]
+      omega
 
 theorem children_distinct' (t : Tile) (ht : V t) : (children t).Nodup := by
-  sorry
+  rw [children_eq t ht]
+  simp [List.Nodup]
 
 theorem children_complete' (t c : Tile) (ht : V t) (hz : t.z < 30) (hc : V c) (hcz : c.z = t.z + 1)
     (hp : parent c = t) : c ∈ children t := by
-  sorry
+  rw [children_eq t ht]
+  rw [parent_eq c (by omega) (by omega)] at hp
+  subst hp
+  cases c with
+  | mk x y z =>
+  simp only at hcz
+  simp only [List.mem_cons, List.not_mem_nil, or_false, Tile.mk.injEq]
+  omega
+
+theorem toZoom_up (t : Tile) (z : Nat) (h : z ≤ t.z) (ht : t.z < 2 ^ 32) :
+    toZoom t z = ancestorAt t (t.z - z) := by
+  unfold toZoom ancestorAt
+  rw [if_neg (by omega), shr32_eq, shr32_eq, sub32_eq h ht]
+  congr 1
+  omega
+
+theorem toZoom_down (t : Tile) (z : Nat) (ht : V t) (h : t.z ≤ z) (hz : z ≤ 30) :
+    toZoom t z = ⟨t.x * 2 ^ (z - t.z), t.y * 2 ^ (z - t.z), z⟩ := by
+  obtain ⟨hx, hy, _⟩ := ht
+  have hzz : t.z + (z - t.z) = z := by omega
+  have h1 := mul_lt_two_pow (b := z - t.z) hx
+  have h2 := mul_lt_two_pow (b := z - t.z) hy
+  rw [hzz] at h1 h2
+  have := two_pow_le_30 hz
+  unfold toZoom
+  by_cases hlt : z > t.z
+  · rw [if_pos hlt, sub32_eq h (by omega), shl32_eq (by omega), shl32_eq (by omega)]
+  · have : z = t.z := by omega
+    subst this
+    rw [if_neg hlt, sub32_eq (Nat.le_refl _) (by omega), shr32_eq, shr32_eq]
+    simp
 
 theorem contains_iff_ancestor' (t u : Tile) (ht : V t) (hu : V u) :
     contains t u = true ↔ IsAncestor t u := by
-  sorry
+  have _ := ht -- (hypothesis not needed: only `u.z < 2^32` is used)
+  unfold contains IsAncestor
+  by_cases h : u.z < t.z
+  · rw [if_pos h]
+    constructor
+    · intro h'; cases h'
+    · intro h'; omega
+  · rw [if_neg h, tile_beq_iff, toZoom_up u t.z (by omega) (by have := hu.2.2; omega)]
+    constructor
+    · intro h'; exact ⟨by omega, h'⟩
+    · intro h'; exact h'.2
 
-theorem quadkey_roundtrip' (t : Tile) (ht : V t) : fromQuadkey (quadkey t) t.z = t := by
-  sorry
+theorem range_up' (t : Tile) (z : Nat) (ht : V t) (hz : z < t.z) :
+    range t z = (ancestorAt t (t.z - z), ancestorAt t (t.z - z)) := by
+  unfold range
+  rw [if_pos hz, toZoom_up t z (by omega) (by have := ht.2.2; omega)]
 
-theorem quadkey_lt' (t : Tile) (ht : V t) : quadkey t < 4 ^ t.z := by
-  sorry
-
-theorem sharedParent_common' (t u : Tile) (ht : V t) (hu : V u) :
-    IsAncestor (sharedParent t u) t ∧ IsAncestor (sharedParent t u) u := by
-  sorry
-
-theorem sharedParent_deepest' (t u a : Tile) (ht : V t) (hu : V u)
-    (hat : IsAncestor a t) (hau : IsAncestor a u) : IsAncestor a (sharedParent t u) := by
-  sorry
+theorem range_down (t : Tile) (z : Nat) (ht : V t) (hz : t.z ≤ z) (hz' : z ≤ 30) :
+    range t z = (⟨t.x * 2 ^ (z - t.z), t.y * 2 ^ (z - t.z), z⟩,
+      ⟨(t.x + 1) * 2 ^ (z - t.z) - 1, (t.y + 1) * 2 ^ (z - t.z) - 1, z⟩) := by
+  obtain ⟨hx, hy, hzt⟩ := ht
+  have hzz : t.z + (z - t.z) = z := by omega
+  have h1 := succ_mul_le_two_pow (b := z - t.z) hx
+  have h2 := succ_mul_le_two_pow (b := z - t.z) hy
+  rw [hzz] at h1 h2
+  have h30 := two_pow_le_30 hz'
+  have h30' := two_pow_le_30 hzt
+  have hpos := Nat.two_pow_pos (z - t.z)
+  have e1 : (t.x + 1) * 2 ^ (z - t.z) = t.x * 2 ^ (z - t.z) + 2 ^ (z - t.z) := by
+    rw [Nat.add_mul, Nat.one_mul]
+  have e2 : (t.y + 1) * 2 ^ (z - t.z) = t.y * 2 ^ (z - t.z) + 2 ^ (z - t.z) := by
+    rw [Nat.add_mul, Nat.one_mul]
+  unfold range
+  rw [if_neg (by omega)]
+  simp only
+  rw [sub32_eq hz (by omega), add32_eq (by omega), add32_eq (by omega)]
+  rw [shl32_eq (by omega), shl32_eq (by omega), shl32_eq (by omega), shl32_eq (by omega)]
+  rw [sub32_eq (by omega) (by omega), sub32_eq (by omega) (by omega)]
 
 theorem range_eq_descendants' (t u : Tile) (z : Nat) (ht : V t) (hz : t.z ≤ z) (hz' : z ≤ 30)
     (hu : V u) (huz : u.z = z) :
     IsAncestor t u ↔
       ((range t z).1.x ≤ u.x ∧ u.x ≤ (range t z).2.x ∧ (range t z).1.y ≤ u.y ∧ u.y ≤ (range t z).2.y) := by
-  sorry
+  have _ := hu -- (hypothesis not needed beyond `huz`)
+  rw [range_down t z ht hz hz']
+  simp only
+  unfold IsAncestor ancestorAt
+  rw [huz]
+  have hpos := Nat.two_pow_pos (z - t.z)
+  have e1 : (t.x + 1) * 2 ^ (z - t.z) = t.x * 2 ^ (z - t.z) + 2 ^ (z - t.z) := by
+    rw [Nat.add_mul, Nat.one_mul]
+  have e2 : (t.y + 1) * 2 ^ (z - t.z) = t.y * 2 ^ (z - t.z) + 2 ^ (z - t.z) := by
+    rw [Nat.add_mul, Nat.one_mul]
+  rw [e1, e2]
+  have dx := Nat.div_eq_iff (x := u.x) (y := t.x) hpos
+  have dy := Nat.div_eq_iff (x := u.y) (y := t.y) hpos
+  constructor
+  · rintro ⟨_, h⟩
+    have hx : u.x / 2 ^ (z - t.z) = t.x := (congrArg Tile.x h).symm
+    have hy : u.y / 2 ^ (z - t.z) = t.y := (congrArg Tile.y h).symm
+    rw [dx] at hx
+    rw [dy] at hy
+    omega
+  · rintro ⟨a, b, c, d⟩
+    refine ⟨hz, ?_⟩
+    apply tile_ext
+    · exact (dx.2 ⟨a, b⟩).symm
+    · exact (dy.2 ⟨c, d⟩).symm
+    · simp only; omega
 
-theorem range_up' (t : Tile) (z : Nat) (ht : V t) (hz : z < t.z) :
-    range t z = (ancestorAt t (t.z - z), ancestorAt t (t.z - z)) := by
-  sorry
+
+
+/-! ### quadkey -/
+
+theorem one_shl_mod64 {i : Nat} (h : i < 64) : (1 <<< i) % W64 = 2 ^ i := by
+  unfold W64
+  rw [Nat.one_shiftLeft]
+  exact Nat.mod_eq_of_lt (Nat.pow_lt_pow_right (by decide) h)
+
+/-- bit `j` of `((v &&& 2^i) <<< s) % 2^64` -/
+theorem testBit_qk_piece (v i s j : Nat) (h : i + s < 64) :
+    (((v &&& 2 ^ i) <<< s) % W64).testBit j = (decide (j = i + s) && v.testBit i) := by
+  unfold W64
+  rw [Nat.testBit_mod_two_pow, Nat.testBit_shiftLeft, Nat.testBit_and, Nat.testBit_two_pow]
+  by_cases hj : j = i + s
+  · subst hj
+    simp [h]
+  · simp only [hj, decide_false, Bool.false_and]
+    by_cases h1 : j ≥ s
+    · have : ¬ (i = j - s) := by omega
+      simp [this]
+    · simp [h1]
+
+theorem testBit_quadkeyStep (t : Tile) (r i j : Nat) (h : i < 32) :
+    (quadkeyStep t r i).testBit j =
+      (r.testBit j || (decide (j = 2 * i) && t.x.testBit i) || (decide (j = 2 * i + 1) && t.y.testBit i)) := by
+  unfold quadkeyStep
+  simp only
+  rw [one_shl_mod64 (by omega), Nat.testBit_or, Nat.testBit_or,
+    testBit_qk_piece _ _ _ _ (by omega), testBit_qk_piece _ _ _ _ (by omega)]
+  have e1 : i + i = 2 * i := by omega
+  have e2 : i + (i + 1) = 2 * i + 1 := by omega
+  rw [e1, e2]
+
+theorem quadkey_fold_succ (t : Tile) (n : Nat) :
+    (List.range (n + 1)).foldl (quadkeyStep t) 0 =
+      quadkeyStep t ((List.range n).foldl (quadkeyStep t) 0) n := by
+  rw [List.range_succ, List.foldl_append]
+  rfl
+
+theorem quadkey_fold_bits (t : Tile) (n : Nat) (hn : n ≤ 32) (i : Nat) :
+    ((List.range n).foldl (quadkeyStep t) 0).testBit (2 * i) = (decide (i < n) && t.x.testBit i) ∧
+    ((List.range n).foldl (quadkeyStep t) 0).testBit (2 * i + 1) = (decide (i < n) && t.y.testBit i) := by
+  induction n with
+  | zero => simp
+  | succ n ih =>
+    obtain ⟨ih1, ih2⟩ := ih (by omega)
+    rw [quadkey_fold_succ, testBit_quadkeyStep _ _ _ _ (by omega),
+      testBit_quadkeyStep _ _ _ _ (by omega), ih1, ih2]
+    have a1 : ¬ (2 * i = 2 * n + 1) := by omega
+    have a2 : ¬ (2 * i + 1 = 2 * n) := by omega
+    by_cases h : i = n
+    · subst h
+      simp
+    · have b1 : ¬ (2 * i = 2 * n) := by omega
+      have b2 : ¬ (2 * i + 1 = 2 * n + 1) := by omega
+      have b3 : (i < n + 1) ↔ (i < n) := by omega
+      simp [a1, a2, b1, b3]
+
+theorem fromQuadkey_fold_succ (k z n : Nat) :
+    (List.range (n + 1)).foldl (fromQuadkeyStep k) ⟨0, 0, z⟩ =
+      fromQuadkeyStep k ((List.range n).foldl (fromQuadkeyStep k) ⟨0, 0, z⟩) n := by
+  rw [List.range_succ, List.foldl_append]
+  rfl
+
+/-- bit `j` of `((k &&& 2^b) >>> s) % 2^32` -/
+theorem testBit_fq_piece (k b s j : Nat) (hs : s ≤ b) (h : b - s < 32) :
+    (((k &&& 2 ^ b) >>> s) % W32).testBit j = (decide (j = b - s) && k.testBit b) := by
+  unfold W32
+  rw [Nat.testBit_mod_two_pow, Nat.testBit_shiftRight, Nat.testBit_and, Nat.testBit_two_pow]
+  by_cases hj : j = b - s
+  · subst hj
+    have e : s + (b - s) = b := by omega
+    simp [h, e]
+  · have : ¬ (b = s + j) := by omega
+    simp [hj, this]
+
+theorem fromQuadkey_fold_bits (k z n : Nat) (hn : n ≤ 32) :
+    ((List.range n).foldl (fromQuadkeyStep k) ⟨0, 0, z⟩).z = z ∧
+    ∀ i, ((List.range n).foldl (fromQuadkeyStep k) ⟨0, 0, z⟩).x.testBit i
+          = (decide (i < n) && k.testBit (2 * i)) ∧
+        ((List.range n).foldl (fromQuadkeyStep k) ⟨0, 0, z⟩).y.testBit i
+          = (decide (i < n) && k.testBit (2 * i + 1)) := by
+  induction n with
+  | zero => simp
+  | succ n ih =>
+    obtain ⟨ihz, ih⟩ := ih (by omega)
+    rw [fromQuadkey_fold_succ]
+    refine ⟨by simpa [fromQuadkeyStep] using ihz, ?_⟩
+    intro i
+    obtain ⟨ih1, ih2⟩ := ih i
+    generalize (List.range n).foldl (fromQuadkeyStep k) ⟨0, 0, z⟩ = T at ih1 ih2 ⊢
+    unfold fromQuadkeyStep
+    simp only
+    rw [one_shl_mod64 (by omega), one_shl_mod64 (by omega), Nat.testBit_or, Nat.testBit_or,
+      testBit_fq_piece _ _ _ _ (by omega) (by omega), testBit_fq_piece _ _ _ _ (by omega) (by omega),
+      ih1, ih2]
+    have e1 : 2 * n - n = n := by omega
+    have e2 : 2 * n + 1 - (n + 1) = n := by omega
+    rw [e1, e2]
+    by_cases h : i = n
+    · subst h
+      simp
+    · have b3 : (i < n + 1) ↔ (i < n) := by omega
+      simp [h, b3]
+
+theorem testBit_eq_false_of_lt {x z i : Nat} (hx : x < 2 ^ z) (hi : z ≤ i) : x.testBit i = false :=
+  Nat.testBit_lt_two_pow (Nat.lt_of_lt_of_le hx (Nat.pow_le_pow_right (by decide) hi))
+
+theorem quadkey_roundtrip' (t : Tile) (ht : V t) : fromQuadkey (quadkey t) t.z = t := by
+  obtain ⟨hx, hy, hz⟩ := ht
+  unfold fromQuadkey
+  obtain ⟨h1, h2⟩ := fromQuadkey_fold_bits (quadkey t) t.z t.z (by omega)
+  apply tile_ext
+  · apply Nat.eq_of_testBit_eq
+    intro i
+    rw [(h2 i).1]
+    unfold quadkey
+    rw [(quadkey_fold_bits t t.z (by omega) i).1]
+    by_cases h : i < t.z
+    · simp [h]
+    · simp [h, testBit_eq_false_of_lt hx (Nat.le_of_not_lt h)]
+  · apply Nat.eq_of_testBit_eq
+    intro i
+    rw [(h2 i).2]
+    unfold quadkey
+    rw [(quadkey_fold_bits t t.z (by omega) i).2]
+    by_cases h : i < t.z
+    · simp [h]
+    · simp [h, testBit_eq_false_of_lt hy (Nat.le_of_not_lt h)]
+  · exact h1
+
+theorem quadkey_lt' (t : Tile) (ht : V t) : quadkey t < 4 ^ t.z := by
+  obtain ⟨hx, hy, hz⟩ := ht
+  have e : (4:Nat) ^ t.z = 2 ^ (2 * t.z) := by
+    rw [Nat.pow_mul]
+  rw [e]
+  apply Nat.lt_pow_two_of_testBit
+  intro j hj
+  unfold quadkey
+  rcases Nat.mod_two_eq_zero_or_one j with h | h
+  · have ej : j = 2 * (j / 2) := by omega
+    rw [ej, (quadkey_fold_bits t t.z (by omega) (j / 2)).1]
+    have : ¬ (j / 2 < t.z) := by omega
+    simp [this]
+  · have ej : j = 2 * (j / 2) + 1 := by omega
+    rw [ej, (quadkey_fold_bits t t.z (by omega) (j / 2)).2]
+    have : ¬ (j / 2 < t.z) := by omega
+    simp [this]
+
+
+
+/-! ### ancestor relation -/
+
+theorem ancestorAt_zero (t : Tile) : ancestorAt t 0 = t := by
+  cases t; simp [ancestorAt]
+
+theorem ancestorAt_add (t : Tile) (k m : Nat) :
+    ancestorAt (ancestorAt t k) m = ancestorAt t (k + m) := by
+  simp [ancestorAt, Nat.div_div_eq_div_mul, Nat.pow_add, Nat.sub_sub]
+
+theorem V_ancestorAt (t : Tile) (ht : V t) (k : Nat) (hk : k ≤ t.z) : V (ancestorAt t k) := by
+  obtain ⟨hx, hy, hz⟩ := ht
+  have e : t.z = (t.z - k) + k := by omega
+  rw [e] at hx hy
+  exact ⟨div_lt_two_pow hx, div_lt_two_pow hy, by simp only [ancestorAt]; omega⟩
+
+theorem isAncestor_iff (a u : Tile) : IsAncestor a u ↔ ∃ k, k ≤ u.z ∧ a = ancestorAt u k := by
+  constructor
+  · rintro ⟨h1, h2⟩
+    exact ⟨u.z - a.z, by omega, h2⟩
+  · rintro ⟨k, hk, rfl⟩
+    have e : u.z - (ancestorAt u k).z = k := by simp only [ancestorAt]; omega
+    refine ⟨by simp only [ancestorAt]; omega, ?_⟩
+    rw [e]
+
+theorem isAncestor_ancestorAt (u : Tile) (k : Nat) (hk : k ≤ u.z) : IsAncestor (ancestorAt u k) u :=
+  (isAncestor_iff _ _).2 ⟨k, hk, rfl⟩
+
+theorem isAncestor_refl (u : Tile) : IsAncestor u u := by
+  have := isAncestor_ancestorAt u 0 (Nat.zero_le _)
+  rwa [ancestorAt_zero] at this
+
+theorem isAncestor_trans {a b c : Tile} (h1 : IsAncestor a b) (h2 : IsAncestor b c) :
+    IsAncestor a c := by
+  rw [isAncestor_iff] at h1 h2 ⊢
+  obtain ⟨k1, hk1, rfl⟩ := h1
+  obtain ⟨k2, hk2, rfl⟩ := h2
+  refine ⟨k2 + k1, ?_, ancestorAt_add _ _ _⟩
+  simp only [ancestorAt] at hk1
+  omega
+
+/-- two ancestors of the same tile: the shallower one is an ancestor of the deeper one -/
+theorem isAncestor_restrict {a b t : Tile} (ha : IsAncestor a t) (hb : IsAncestor b t)
+    (hz : a.z ≤ b.z) : IsAncestor a b := by
+  rw [isAncestor_iff] at ha hb ⊢
+  obtain ⟨ka, hka, rfl⟩ := ha
+  obtain ⟨kb, hkb, rfl⟩ := hb
+  simp only [ancestorAt] at hz
+  refine ⟨ka - kb, by simp only [ancestorAt]; omega, ?_⟩
+  rw [ancestorAt_add]
+  congr 1
+  omega
+
+/-! ### bitLen, xor -/
+
+theorem lt_two_pow_bitLen (n : Nat) : n < 2 ^ bitLen n := by
+  induction n using bitLen.induct with
+  | case1 => simp [bitLen]
+  | case2 n ih =>
+    rw [bitLen, Nat.pow_succ]
+    omega
+
+theorem bitLen_le_of_lt (n : Nat) : ∀ c, n < 2 ^ c → bitLen n ≤ c := by
+  induction n using bitLen.induct with
+  | case1 => intro c _; simp [bitLen]
+  | case2 n ih =>
+    intro c hc
+    cases c with
+    | zero => simp at hc
+    | succ c =>
+      rw [Nat.pow_succ] at hc
+      rw [bitLen]
+      have := ih c (by omega)
+      omega
+
+theorem div_eq_of_xor_lt {a b c : Nat} (h : a ^^^ b < 2 ^ c) : a / 2 ^ c = b / 2 ^ c := by
+  apply Nat.eq_of_testBit_eq
+  intro i
+  rw [Nat.testBit_div_two_pow, Nat.testBit_div_two_pow]
+  have := Nat.testBit_lt_two_pow
+    (Nat.lt_of_lt_of_le h (Nat.pow_le_pow_right (by decide) (Nat.le_add_left c i)))
+  rw [Nat.testBit_xor] at this
+  simpa using this
+
+theorem xor_lt_of_div_eq {a b c : Nat} (h : a / 2 ^ c = b / 2 ^ c) : a ^^^ b < 2 ^ c := by
+  apply Nat.lt_pow_two_of_testBit
+  intro i hi
+  have e : i = (i - c) + c := by omega
+  have h1 := Nat.testBit_div_two_pow (n := c) a (i - c)
+  have h2 := Nat.testBit_div_two_pow (n := c) b (i - c)
+  rw [← e] at h1 h2
+  rw [Nat.testBit_xor, ← h1, ← h2, h]
+  simp
+
+/-! ### sharedParent -/
+
+/-- `SharedParent` after the two tiles have been brought to the same zoom. -/
+def spCore (t u : Tile) : Tile :=
+  if t == u then t else
+  let xc := bitLen (t.x ^^^ u.x)
+  let yc := bitLen (t.y ^^^ u.y)
+  let maxc := if yc > xc then yc else xc
+  ⟨shr32 t.x maxc, shr32 t.y maxc, sub32 t.z maxc⟩
+
+theorem sharedParent_eq (t u : Tile) :
+    sharedParent t u =
+      if t.z < u.z then spCore t (toZoom u t.z)
+      else if u.z < t.z then spCore (toZoom t u.z) u
+      else spCore t u := by
+  unfold sharedParent spCore
+  by_cases h1 : t.z < u.z
+  · have : t.z ≠ u.z := by omega
+    simp [h1, this]
+  · by_cases h2 : u.z < t.z
+    · have : t.z ≠ u.z := by omega
+      simp [h1, h2, this]
+    · have : t.z = u.z := by omega
+      simp [this]
+
+theorem spCore_spec (t u : Tile) (ht : V t) (hu : V u) (hz : t.z = u.z) :
+    ∃ m, m ≤ t.z ∧ spCore t u = ancestorAt t m ∧ spCore t u = ancestorAt u m ∧
+      ∀ c, t.x / 2 ^ c = u.x / 2 ^ c → t.y / 2 ^ c = u.y / 2 ^ c → m ≤ c := by
+  by_cases h : t = u
+  · subst h
+    refine ⟨0, Nat.zero_le _, ?_, ?_, fun c _ _ => Nat.zero_le _⟩ <;>
+    · unfold spCore
+      rw [if_pos ((tile_beq_iff _ _).2 rfl), ancestorAt_zero]
+  · obtain ⟨hx, hy, hz30⟩ := ht
+    obtain ⟨hx', hy', _⟩ := hu
+    rw [← hz] at hx' hy'
+    have hxx := Nat.xor_lt_two_pow hx hx'
+    have hyy := Nat.xor_lt_two_pow hy hy'
+    have bx := bitLen_le_of_lt _ _ hxx
+    have byy := bitLen_le_of_lt _ _ hyy
+    have lx := lt_two_pow_bitLen (t.x ^^^ u.x)
+    have ly := lt_two_pow_bitLen (t.y ^^^ u.y)
+    have hne : ¬ ((t == u) = true) := fun h' => h ((tile_beq_iff _ _).1 h')
+    have hsp : spCore t u = ancestorAt t
+        (if bitLen (t.y ^^^ u.y) > bitLen (t.x ^^^ u.x) then bitLen (t.y ^^^ u.y)
+          else bitLen (t.x ^^^ u.x)) := by
+      unfold spCore
+      rw [if_neg hne]
+      simp only
+      rw [shr32_eq, shr32_eq, sub32_eq (by split <;> omega) (by omega)]
+      rfl
+    generalize hm : (if bitLen (t.y ^^^ u.y) > bitLen (t.x ^^^ u.x) then bitLen (t.y ^^^ u.y)
+          else bitLen (t.x ^^^ u.x)) = m at hsp
+    have hmx : bitLen (t.x ^^^ u.x) ≤ m := by rw [← hm]; split <;> omega
+    have hmy : bitLen (t.y ^^^ u.y) ≤ m := by rw [← hm]; split <;> omega
+    have hmz : m ≤ t.z := by rw [← hm]; split <;> omega
+    have ex : t.x / 2 ^ m = u.x / 2 ^ m :=
+      div_eq_of_xor_lt (Nat.lt_of_lt_of_le lx (Nat.pow_le_pow_right (by decide) hmx))
+    have ey : t.y / 2 ^ m = u.y / 2 ^ m :=
+      div_eq_of_xor_lt (Nat.lt_of_lt_of_le ly (Nat.pow_le_pow_right (by decide) hmy))
+    refine ⟨m, hmz, hsp, ?_, ?_⟩
+    · rw [hsp]
+      simp only [ancestorAt, ex, ey, hz]
+    · intro c hcx hcy
+      have h1 := bitLen_le_of_lt _ _ (xor_lt_of_div_eq hcx)
+      have h2 := bitLen_le_of_lt _ _ (xor_lt_of_div_eq hcy)
+      rw [← hm]; split <;> omega
+
+theorem spCore_common (t u : Tile) (ht : V t) (hu : V u) (hz : t.z = u.z) :
+    IsAncestor (spCore t u) t ∧ IsAncestor (spCore t u) u := by
+  obtain ⟨m, hm, h1, h2, _⟩ := spCore_spec t u ht hu hz
+  constructor
+  · rw [h1]; exact isAncestor_ancestorAt t m hm
+  · rw [h2]; exact isAncestor_ancestorAt u m (by omega)
+
+theorem spCore_deepest (t u a : Tile) (ht : V t) (hu : V u) (hz : t.z = u.z)
+    (hat : IsAncestor a t) (hau : IsAncestor a u) : IsAncestor a (spCore t u) := by
+  obtain ⟨m, hm, h1, _, h3⟩ := spCore_spec t u ht hu hz
+  have hsp : IsAncestor (spCore t u) t := by rw [h1]; exact isAncestor_ancestorAt t m hm
+  refine isAncestor_restrict hat hsp ?_
+  obtain ⟨hz1, e1⟩ := hat
+  obtain ⟨hz2, e2⟩ := hau
+  rw [← hz] at e2
+  have hx : t.x / 2 ^ (t.z - a.z) = u.x / 2 ^ (t.z - a.z) := by
+    have := congrArg Tile.x e1
+    have := congrArg Tile.x e2
+    simp only [ancestorAt] at *
+    omega
+  have hy : t.y / 2 ^ (t.z - a.z) = u.y / 2 ^ (t.z - a.z) := by
+    have := congrArg Tile.y e1
+    have := congrArg Tile.y e2
+    simp only [ancestorAt] at *
+    omega
+  have := h3 _ hx hy
+  rw [h1]
+  simp only [ancestorAt]
+  omega
+
+/-- The pair of tiles `SharedParent` actually compares, with the facts needed. -/
+theorem sharedParent_reduce (t u : Tile) (ht : V t) (hu : V u) :
+    ∃ t' u', sharedParent t u = spCore t' u' ∧ V t' ∧ V u' ∧ t'.z = u'.z ∧
+      IsAncestor t' t ∧ IsAncestor u' u ∧ (t'.z = t.z ∨ t'.z = u.z) := by
+  have htz : t.z ≤ 30 := ht.2.2
+  have huz : u.z ≤ 30 := hu.2.2
+  rw [sharedParent_eq]
+  by_cases h1 : t.z < u.z
+  · rw [if_pos h1, toZoom_up u t.z (by omega) (by omega)]
+    refine ⟨t, _, rfl, ht, V_ancestorAt u hu _ (by omega), ?_, isAncestor_refl t,
+      isAncestor_ancestorAt u _ (by omega), Or.inl rfl⟩
+    simp only [ancestorAt]; omega
+  · rw [if_neg h1]
+    by_cases h2 : u.z < t.z
+    · rw [if_pos h2, toZoom_up t u.z (by omega) (by omega)]
+      refine ⟨_, u, rfl, V_ancestorAt t ht _ (by omega), hu, ?_,
+        isAncestor_ancestorAt t _ (by omega), isAncestor_refl u, Or.inr ?_⟩ <;>
+      · simp only [ancestorAt]; omega
+    · rw [if_neg h2]
+      exact ⟨t, u, rfl, ht, hu, by omega, isAncestor_refl t, isAncestor_refl u, Or.inl rfl⟩
+
+theorem sharedParent_common' (t u : Tile) (ht : V t) (hu : V u) :
+    IsAncestor (sharedParent t u) t ∧ IsAncestor (sharedParent t u) u := by
+  obtain ⟨t', u', e, ht', hu', hz, a1, a2, _⟩ := sharedParent_reduce t u ht hu
+  rw [e]
+  obtain ⟨c1, c2⟩ := spCore_common t' u' ht' hu' hz
+  exact ⟨isAncestor_trans c1 a1, isAncestor_trans c2 a2⟩
+
+theorem sharedParent_deepest' (t u a : Tile) (ht : V t) (hu : V u)
+    (hat : IsAncestor a t) (hau : IsAncestor a u) : IsAncestor a (sharedParent t u) := by
+  obtain ⟨t', u', e, ht', hu', hz, a1, a2, hmin⟩ := sharedParent_reduce t u ht hu
+  rw [e]
+  have hle : a.z ≤ t'.z := by
+    have := hat.1
+    have := hau.1
+    omega
+  exact spCore_deepest t' u' a ht' hu' hz (isAncestor_restrict hat a1 hle)
+    (isAncestor_restrict hau a2 (by omega))
+
+
+/-! ### childrenInZoomRange -/
+
+theorem childrenAtDelta_eq (t : Tile) (d : Nat) (ht : V t) (hd : t.z + d ≤ 30) :
+    childrenAtDelta t d = (List.range (2 ^ d)).flatMap fun i =>
+      (List.range (2 ^ d)).map fun j => ⟨t.x * 2 ^ d + i, t.y * 2 ^ d + j, t.z + d⟩ := by
+  obtain ⟨hx, hy, hz⟩ := ht
+  have h1 := succ_mul_le_two_pow (b := d) hx
+  have h2 := succ_mul_le_two_pow (b := d) hy
+  have h30 := two_pow_le_30 hd
+  have hd30 := two_pow_le_30 (show d ≤ 30 by omega)
+  have hpos := Nat.two_pow_pos d
+  have e1 : (t.x + 1) * 2 ^ d = t.x * 2 ^ d + 2 ^ d := by rw [Nat.add_mul, Nat.one_mul]
+  have e2 : (t.y + 1) * 2 ^ d = t.y * 2 ^ d + 2 ^ d := by rw [Nat.add_mul, Nat.one_mul]
+  have s1 : shl32 t.x d = t.x * 2 ^ d := shl32_eq (by omega)
+  have s2 : shl32 t.y d = t.y * 2 ^ d := shl32_eq (by omega)
+  have s3 : shl32 1 d = 2 ^ d := by rw [shl32_eq (by omega), Nat.one_mul]
+  have a1 : add32 (t.x * 2 ^ d) (2 ^ d) - t.x * 2 ^ d = 2 ^ d := by
+    rw [add32_eq (by omega)]; omega
+  have a2 : add32 (t.y * 2 ^ d) (2 ^ d) - t.y * 2 ^ d = 2 ^ d := by
+    rw [add32_eq (by omega)]; omega
+  have a3 : add32 t.z d = t.z + d := add32_eq (by omega)
+  unfold childrenAtDelta
+  simp only [s1, s2, s3, a1, a2, a3]
+
+theorem mem_childrenAtDelta (t : Tile) (d : Nat) (u : Tile) (ht : V t) (hd : t.z + d ≤ 30) :
+    u ∈ childrenAtDelta t d ↔ (V u ∧ u.z = t.z + d ∧ IsAncestor t u) := by
+  rw [childrenAtDelta_eq t d ht hd]
+  simp only [List.mem_flatMap, List.mem_map, List.mem_range]
+  have hpos := Nat.two_pow_pos d
+  obtain ⟨hx, hy, hz⟩ := ht
+  have h1 := succ_mul_le_two_pow (b := d) hx
+  have h2 := succ_mul_le_two_pow (b := d) hy
+  have e1 : (t.x + 1) * 2 ^ d = t.x * 2 ^ d + 2 ^ d := by rw [Nat.add_mul, Nat.one_mul]
+  have e2 : (t.y + 1) * 2 ^ d = t.y * 2 ^ d + 2 ^ d := by rw [Nat.add_mul, Nat.one_mul]
+  constructor
+  · rintro ⟨i, hi, j, hj, rfl⟩
+    refine ⟨⟨?_, ?_, hd⟩, rfl, ?_, ?_⟩
+    · simp only; omega
+    · simp only; omega
+    · simp only; omega
+    · have ed : t.z + d - t.z = d := by omega
+      simp only [ancestorAt, ed]
+      apply tile_ext
+      · simp only
+        rw [Nat.add_comm, Nat.add_mul_div_right _ _ hpos, Nat.div_eq_of_lt hi, Nat.zero_add]
+      · simp only
+        rw [Nat.add_comm, Nat.add_mul_div_right _ _ hpos, Nat.div_eq_of_lt hj, Nat.zero_add]
+      · simp only; omega
+  · rintro ⟨_, hzu, hle, he⟩
+    have ed : u.z - t.z = d := by omega
+    rw [ed] at he
+    have ex : t.x = u.x / 2 ^ d := congrArg Tile.x he
+    have ey : t.y = u.y / 2 ^ d := congrArg Tile.y he
+    refine ⟨u.x % 2 ^ d, Nat.mod_lt _ hpos, u.y % 2 ^ d, Nat.mod_lt _ hpos, ?_⟩
+    apply tile_ext
+    · simp only; rw [ex]; exact Nat.div_add_mod' _ _
+    · simp only; rw [ey]; exact Nat.div_add_mod' _ _
+    · simp only; omega
+
+theorem nodup_childrenAtDelta (t : Tile) (d : Nat) (ht : V t) (hd : t.z + d ≤ 30) :
+    (childrenAtDelta t d).Nodup := by
+  rw [childrenAtDelta_eq t d ht hd]
+  unfold List.Nodup
+  rw [List.pairwise_flatMap]
+  constructor
+  · intro i _
+    rw [List.pairwise_map]
+    refine List.Pairwise.imp ?_ (List.nodup_range (n := 2 ^ d))
+    intro a b hab h
+    apply hab
+    have := congrArg Tile.y h
+    simp only at this
+    omega
+  · refine List.Pairwise.imp ?_ (List.nodup_range (n := 2 ^ d))
+    intro a b hab p hp q hq h
+    simp only [List.mem_map, List.mem_range] at hp hq
+    obtain ⟨_, _, rfl⟩ := hp
+    obtain ⟨_, _, rfl⟩ := hq
+    apply hab
+    have := congrArg Tile.x h
+    simp only at this
+    omega
 
 theorem childrenInZoomRange_spec' (t : Tile) (zs ze : Nat) (ht : V t) (h1 : t.z ≤ zs) (h2 : zs ≤ ze) (h3 : ze ≤ 30) :
     ∃ l, childrenInZoomRange t zs ze = some l ∧ l.Nodup ∧
       ∀ u, u ∈ l ↔ (V u ∧ zs ≤ u.z ∧ u.z ≤ ze ∧ IsAncestor t u) := by
-  sorry
+  have hz30 : t.z ≤ 30 := ht.2.2
+  refine ⟨(List.range (ze - t.z + 1 - (zs - t.z))).flatMap fun k =>
+    childrenAtDelta t (zs - t.z + k), ?_, ?_, ?_⟩
+  · unfold childrenInZoomRange
+    rw [if_neg (fun h => h h2), if_neg (fun h => h h1)]
+    simp only
+    rw [sub32_eq h1 (by omega), sub32_eq (by omega) (by omega)]
+  · unfold List.Nodup
+    rw [List.pairwise_flatMap]
+    constructor
+    · intro k hk
+      rw [List.mem_range] at hk
+      exact nodup_childrenAtDelta t _ ht (by omega)
+    · refine List.Pairwise.imp_of_mem ?_ (List.nodup_range (n := ze - t.z + 1 - (zs - t.z)))
+      intro a b ha hb hab p hp q hq h
+      rw [List.mem_range] at ha hb
+      rw [mem_childrenAtDelta t _ _ ht (by omega)] at hp hq
+      apply hab
+      subst h
+      have := hp.2.1
+      have := hq.2.1
+      omega
+  · intro u
+    rw [List.mem_flatMap]
+    constructor
+    · rintro ⟨k, hk, hu⟩
+      rw [List.mem_range] at hk
+      rw [mem_childrenAtDelta t _ _ ht (by omega)] at hu
+      obtain ⟨hv, hz, ha⟩ := hu
+      exact ⟨hv, by omega, by omega, ha⟩
+    · rintro ⟨hv, hz1, hz2, ha⟩
+      refine ⟨u.z - zs, by rw [List.mem_range]; omega, ?_⟩
+      rw [mem_childrenAtDelta t _ _ ht (by omega)]
+      exact ⟨hv, by omega, ha⟩
 
 end Orb.Tile
